@@ -26,6 +26,9 @@ Fixpoint pexp_ok (p : pexp) : Prop :=
   | PHasChild nt => nt_ok nt
   | PHasAttr a => qname_ok a
   | PChildPred nt q => nt_ok nt /\ pexp_ok q
+  | PAttrEqChild a nt => qname_ok a /\ nt_ok nt
+  | PChildPosEq nt _ v => nt_ok nt /\ value_ok v
+  | PCount nt _ => nt_ok nt
   | PAnd a b | POr a b => pexp_ok a /\ pexp_ok b
   | PNot a => pexp_ok a
   end.
@@ -106,10 +109,22 @@ Lemma scan_rev_plain : forall l rest b, forallb plain l = true ->
 Proof. intros. apply scan_plain. rewrite forallb_rev. exact H. Qed.
 
 (* a rendered predicate is transparent to the scan: brackets balance, quotes close *)
+Lemma digit_plain : forall n, forallb plain (digit n) = true.
+Proof. intro n. do 5 (destruct n as [|n]; [reflexivity|]). reflexivity. Qed.
+
+Lemma scan_wrap : forall c p rest b,
+  (forall rest' b', rlf_scan (rev (render_pexp p) ++ rest') (S b') None = rlf_scan rest' (S b') None) ->
+  rlf_scan (rev (wrap_paren c (render_pexp p)) ++ rest) (S b) None = rlf_scan rest (S b) None.
+Proof.
+  intros c p rest b IH. destruct c; cbn [wrap_paren]; [|apply IH].
+  rewrite !rev_app_distr, <- !app_assoc.
+  rewrite scan_rev_plain by reflexivity. rewrite IH. apply scan_rev_plain. reflexivity.
+Qed.
+
 Lemma scan_pexp : forall p rest b, pexp_ok p ->
   rlf_scan (rev (render_pexp p) ++ rest) (S b) None = rlf_scan rest (S b) None.
 Proof.
-  induction p as [nt v|a v|v|v|nt v|nt|a|nt q IH|p1 IH1 p2 IH2|p1 IH1 p2 IH2|p1 IH1];
+  induction p as [nt v|a v|v|v|nt v|nt|a|nt q IH|a nt|nt i v|nt n|p1 IH1 p2 IH2|p1 IH1 p2 IH2|p1 IH1];
     intros rest b Hok; cbn [render_pexp pexp_ok] in *;
     rewrite ?rev_app_distr, <- ?app_assoc.
   - destruct Hok as [H1 H2]. rewrite scan_quoted by exact H2.
@@ -133,13 +148,27 @@ Proof.
     change (Byte.eqb LB Q1 || Byte.eqb LB Q2) with false. change (Byte.eqb LB LB) with true. cbn iota.
     cbn [pred]. apply scan_rev_plain, render_nt_plain, H1.
   - destruct Hok as [H1 H2].
-    rewrite scan_rev_plain by reflexivity. rewrite IH2 by exact H2.
-    rewrite scan_rev_plain by reflexivity. rewrite IH1 by exact H1.
-    apply scan_rev_plain. reflexivity.
+    rewrite scan_rev_plain by (apply render_nt_plain, H2). rewrite scan_rev_plain by reflexivity.
+    rewrite scan_rev_plain by (apply render_name_plain, H1). apply scan_rev_plain. reflexivity.
+  - destruct Hok as [H1 H2]. rewrite scan_quoted by exact H2.
+    (* "]=" i "[" nt, read backwards *)
+    change (rev (bs "]=")) with (bs "=" ++ [RB]). change (rev (bs "[")) with [LB].
+    rewrite <- app_assoc. rewrite scan_plain by reflexivity.
+    cbn [app rlf_scan]. change (Byte.eqb RB Q1 || Byte.eqb RB Q2) with false.
+    change (Byte.eqb RB LB) with false. change (Byte.eqb RB RB) with true. cbn iota.
+    rewrite scan_rev_plain by apply digit_plain. cbn [app rlf_scan].
+    change (Byte.eqb LB Q1 || Byte.eqb LB Q2) with false. change (Byte.eqb LB LB) with true. cbn iota.
+    cbn [pred]. apply scan_rev_plain, render_nt_plain, H1.
+  - rewrite scan_rev_plain by apply digit_plain. rewrite scan_rev_plain by reflexivity.
+    rewrite scan_rev_plain by (apply render_nt_plain, Hok). apply scan_rev_plain. reflexivity.
   - destruct Hok as [H1 H2].
-    rewrite scan_rev_plain by reflexivity. rewrite IH2 by exact H2.
-    rewrite scan_rev_plain by reflexivity. rewrite IH1 by exact H1.
-    apply scan_rev_plain. reflexivity.
+    rewrite (scan_wrap _ p2) by (intros; apply IH2; exact H2).
+    rewrite scan_rev_plain by reflexivity.
+    apply (scan_wrap _ p1). intros; apply IH1; exact H1.
+  - destruct Hok as [H1 H2].
+    rewrite (scan_wrap _ p2) by (intros; apply IH2; exact H2).
+    rewrite scan_rev_plain by reflexivity.
+    apply (scan_wrap _ p1). intros; apply IH1; exact H1.
   - rewrite scan_rev_plain by reflexivity. rewrite IH1 by exact Hok.
     apply scan_rev_plain. reflexivity.
 Qed.
